@@ -13,6 +13,10 @@ OBLIGATIONS = [
     'Cvise.C06.init_inv', 'Cvise.C06.step_preserves_inv', 'Cvise.C06.visit_in_range', 'Cvise.C06.granularity_halves',
     'Cvise.C06.finishes_at_single', 'Cvise.C06.completes', 'Cvise.C06.no_accept_no_single', 'Cvise.C06.monotone_exact',
     'Cvise.C06.monotone_exact_total',
+    'Cvise.C06.gcda_invariant', 'Cvise.C06.gcda_visit_in_range', 'Cvise.C06.gcda_finishes_at_single', 'Cvise.C06.gcda_completes',
+    'Cvise.C06.gcda_no_accept_no_single', 'Cvise.C06.gcda_monotone_exact', 'Cvise.C06.gcda_monotone_exact_total', 'Cvise.C06.gcda_trace_is_run',
+    'Cvise.C06.ifs_invariant', 'Cvise.C06.ifs_visit_in_range', 'Cvise.C06.ifs_completes', 'Cvise.C06.ifs_no_accept_no_single',
+    'Cvise.C06.ifs_monotone_exact', 'Cvise.C06.ifs_monotone_exact_total', 'Cvise.C06.ifs_trace_is_run', 'Cvise.C06.ifs_sticky_value',
     'Cvise.gen_advance_eq', 'Cvise.gen_aos_eq', 'Cvise.gen_create_eq', 'Cvise.gen_end_eq', 'Cvise.gen_realChunk_eq',
 ]
 
@@ -176,7 +180,20 @@ def items_of(name, n, text):
     return present
 
 
-def run_pass_case(ctx, name, n, test_items, wd):
+def bodies_ok(n, text, vmode):
+    """ifs with a value-sensitive test: '1' = every block body must still be there (only `#if 1` resolutions pass),
+    '0' = a body is there iff its directive is (only `#if 0` resolutions pass)"""
+    lines = text.split('\n')
+    for i in range(n):
+        body = f'int body{i};' in lines
+        if vmode == '1' and not body:
+            return False
+        if vmode == '0' and body != (item_text('ifs', i).rstrip('\n') in lines):
+            return False
+    return True
+
+
+def run_pass_case(ctx, name, n, test_items, wd, vmode='b'):
     """test_items: function(list of present item ids) -> bool.  Returns (trace string, final items, details)."""
     d = fresh_dir(ctx, 'c06')
     path = d / 'a.c'
@@ -184,14 +201,15 @@ def run_pass_case(ctx, name, n, test_items, wd):
     p = make_pass(name)
 
     def test(cand):
-        return test_items(items_of(name, n, Path(cand).read_text()))
+        text = Path(cand).read_text()
+        return test_items(items_of(name, n, text)) and (vmode == 'b' or bodies_ok(n, text, vmode))
 
     loop = RefLoop(p, path, test, d, max_steps=4 * n * n + 8 * n + 10)
     table = {}
 
     def on_cand(rec):
         its = items_of(name, n, rec['after'].decode())
-        table[tuple(its)] = rec['accepted']
+        table[tuple(its)] = rec['accepted'] if vmode == 'b' else test_items(its)
         rec['items_after'] = its
         rec['items_before'] = items_of(name, n, rec['before'].decode())
     loop.on_candidate = on_cand
@@ -250,12 +268,12 @@ def judge_pass_case(ctx, name, n, label, loop, final, final_text, required, test
                 return
 
 
-def trace_str(loop, final):
+def trace_str(loop, final, with_value=False):
     t = []
     for r in loop.trace:
         st = r['state']
         e = min(st['index'] + st['chunk'], st['instances'])
-        t.append(f"{st['index']}-{e}{'A' if r['accepted'] else 'R'}")
+        t.append(f"{st['index']}-{e}{('/' + str(st.get('value'))) if with_value else ''}{'A' if r['accepted'] else 'R'}")
     return f"{' '.join(t)} => {enc_list(final)}"
 
 
@@ -280,29 +298,54 @@ def part_passes(ctx, diffs, deep=False):
                 judge_pass_case(ctx, name, n, {'required': req}, loop, final, ftxt, req, ti)
                 if 0 < len(req) < n:
                     ctx.nontrivial(('req', name, n, mask))
-                if name in ('gcda', 'ifs'):
-                    continue      # gcda restarts from scratch after every accepted removal: not the generic run of the model, judged directly
+                if name == 'gcda':
+                    # restart after every accepted removal: the gcda run of the model (Model/BinaryVariants.lean)
+                    lines.append(f'binrung {n} R {enc_list(req)}')
+                    reals.append(trace_str(loop, final))
+                    scens.append({'kind': 'pass', 'pass': name, 'n': n, 'required': req, 'final_newline': nl})
+                    continue
+                if name == 'ifs':
+                    # the cursor with its value: the ifs run of the model; value-blind test, then tests that accept only
+                    # `#if 1` / only `#if 0` resolutions (the value stays as it is across an accepted removal)
+                    lines.append(f'binruni {n} b R {enc_list(req)}')
+                    reals.append(trace_str(loop, final, with_value=True))
+                    scens.append({'kind': 'pass', 'pass': name, 'n': n, 'required': req, 'final_newline': nl})
+                    for vmode in ('0', '1'):
+                        loop, final, ftxt, table = run_pass_case(ctx, name, n, ti, None, vmode=vmode)
+                        ctx.count()
+                        judge_pass_case(ctx, name, n, {'required': req, 'vmode': vmode}, loop, final, ftxt, None, ti)
+                        lines.append(f'binruni {n} {vmode} R {enc_list(req)}')
+                        reals.append(trace_str(loop, final, with_value=True))
+                        scens.append({'kind': 'pass', 'pass': name, 'n': n, 'required': req, 'vmode': vmode, 'final_newline': nl})
+                        if 0 < len(req) < n:
+                            ctx.nontrivial(('req', name, n, mask, vmode))
+                    continue
                 lines.append(f'binrun {n} {enc_list(req)}')
                 reals.append(trace_str(loop, final))
                 scens.append({'kind': 'pass', 'pass': name, 'n': n, 'required': req, 'final_newline': nl})
         if not nl:
             FINAL_NEWLINE[0] = True
             continue
-        if name in ('gcda', 'ifs'):
-            continue
         # arbitrary (non-monotone) deterministic predicates
-        for k in range(60 if ctx.tier == 'quick' else 600):
-            n = ctx.rng.randint(1, 12)
-            ti = hash_pred((ctx.seed, name, k), ctx.rng.choice([0, 40, 100, 180]))
-            loop, final, ftxt, table = run_pass_case(ctx, name, n, ti, None)
+        for k in range((60 if name not in ('gcda', 'ifs') else 30) if ctx.tier == 'quick' else 600):
+            n = ctx.rng.randint(1, 12 if name not in ('gcda', 'ifs') else 7)
+            dens = ctx.rng.choice([0, 40, 100, 180])
+            ti = hash_pred((ctx.seed, name, k), dens)
+            vmode = ctx.rng.choice(['b', 'b', '0', '1']) if name == 'ifs' else 'b'
+            loop, final, ftxt, table = run_pass_case(ctx, name, n, ti, None, vmode=vmode)
             ctx.count()
-            judge_pass_case(ctx, name, n, {'hash': [ctx.seed, name, k]}, loop, final, ftxt, None, ti)
+            judge_pass_case(ctx, name, n, {'hash': [ctx.seed, name, k], 'density': dens, 'vmode': vmode}, loop, final, ftxt, None, ti)
             if any(r['accepted'] for r in loop.trace) and any(not r['accepted'] for r in loop.trace):
                 ctx.nontrivial(('hash', name, n, k))
             tbl = ';'.join(f'{enc_list(list(c))}:{1 if v else 0}' for c, v in table.items()) or '-'
-            lines.append(f'binrunt {n} {tbl}')
-            reals.append(trace_str(loop, final))
-            scens.append({'kind': 'pass', 'pass': name, 'n': n, 'hash': [ctx.seed, name, k]})
+            if name == 'gcda':
+                lines.append(f'binrung {n} T {tbl}')
+            elif name == 'ifs':
+                lines.append(f'binruni {n} {vmode} T {tbl}')
+            else:
+                lines.append(f'binrunt {n} {tbl}')
+            reals.append(trace_str(loop, final, with_value=(name == 'ifs')))
+            scens.append({'kind': 'pass', 'pass': name, 'n': n, 'hash': [ctx.seed, name, k], 'density': dens, 'vmode': vmode})
     outs = ctx.model(lines)
     for sc, r, m, ln in zip(scens, reals, outs, lines):
         if r != m:
@@ -325,10 +368,11 @@ def replay(ctx, scen):
             ti = (lambda its: all(r in its for r in req))
         else:
             req = None
-            ti = hash_pred(tuple(t['hash']), 100)
+            ti = hash_pred(tuple(t['hash']), t.get('density', scen.get('density', 100)))
         FINAL_NEWLINE[0] = scen.get('final_newline', True)
-        loop, final, ftxt, table = run_pass_case(ctx, scen['pass'], scen['n'], ti, None)
-        judge_pass_case(ctx, scen['pass'], scen['n'], t, loop, final, ftxt, req, ti)
+        vmode = t.get('vmode', scen.get('vmode', 'b'))
+        loop, final, ftxt, table = run_pass_case(ctx, scen['pass'], scen['n'], ti, None, vmode=vmode)
+        judge_pass_case(ctx, scen['pass'], scen['n'], t, loop, final, ftxt, req if vmode == 'b' else None, ti)
     print('replayed', scen.get('kind'), '->', 'fails' if ctx.violations else 'holds')
 
 
